@@ -1,4 +1,3 @@
-import itertools
 import os
 import multiprocessing as mp
 import threading
@@ -84,8 +83,9 @@ def fork(res, row_func, num_processors, predicate):
     predicate = predicate or (lambda x: True)
     for row in res:
         if predicate(row):
-            res = itertools.chain([row], res)
             q_in = mp.Queue()
+            # this row is selected: it goes to the workers without asking the predicate about it again
+            q_in.put(row)
             q_internal = queue.Queue()
             t_prod = threading.Thread(target=producer, args=(res, q_in, q_internal, num_processors, predicate))
             t_prod.start()
